@@ -860,6 +860,15 @@ def r20_14(ctx, prog, crate):
     r17_3(Renamed(ctx, "R20.14"), prog, crate)
 
 
+def run_extra(ctx):
+    """R20.15 (= R12.3) Groups are shown with what they declare (name, thread branches, (ignored)): the group entry a
+    #[divan::bench_group] emits carries the module's raw name as module_path!() spells it (raw identifiers keep their r#),
+    so insert_group finds its node - on the macro expansions (engine E3)."""
+    from . import C12
+    from .common import Renamed
+    C12.run_extra(Renamed(ctx, "R20.15"))
+
+
 def run(ctx, prog, crate):
     r20_14(ctx, prog, crate)
     r20_13(ctx, prog, crate)
